@@ -23,7 +23,7 @@ TITLE = 'strict vs non-strict'
 LEVEL = 'exploration'
 SHARDS = {'quick': 16, 'thorough': 16}
 FLOOR = {'quick': 800, 'thorough': 10000}
-REQUIRED_MONITORS = {'valid-pairs-compared': 1000, 'strict-rejections-located': 800, 'deferred-raised': 300, 'deferred-dead': 300, 'same-text-planted-twice': 100, 'empty-expression-sites': 100, 'line-ending-sites': 200, 'location-history-steps': 300}
+REQUIRED_MONITORS = {'valid-pairs-compared': 1000, 'strict-rejections-located': 800, 'deferred-raised': 300, 'deferred-dead': 300, 'same-text-planted-twice': 100, 'empty-expression-sites': 100, 'line-ending-sites': 200, 'location-history-steps': 300, 'load-chain-steps': 400}
 RULE = ('valid layer: a case = (program, binding table), strict and non-strict renderings compared; planted layer: a case = '
         '(program, planted slot, planting form in {alone, first pipe alternative, later pipe alternative, under not:, string: '
         'part, ${} part}, binding table); non-trivial: valid iff >=1 expression, planted always; distinct by (site kind, '
@@ -289,6 +289,7 @@ def run(ctx):
     monitors.install(ctx, tokalg=False)
     layer_empty(ctx)
     layer_line_endings(ctx)
+    layer_load_chain(ctx, 12 if ctx.quick else 200)
     layer_location_history(ctx, 6 if ctx.quick else 60)
     rng = ctx.rng
     n = 100 if ctx.quick else 1800
@@ -484,6 +485,65 @@ def layer_location_history(ctx, rounds):
             if got != [want, want]:
                 ctx.violation('location-history-differs', 'template %r (one of %d equally long templates rendered in turn): strict / deferred '
                               'error %r, expected %r' % (src, K, got, want), {'kind': 'planted', 'src': src, 'text': bad})
+
+
+
+def layer_load_chain(ctx, n):
+    """File templates that pull in another file through load: hand their own strict setting down to it.  Pages with
+    different settings live in one directory and are created in every order: for each page the loaded template with
+    an invalid expression is rejected when the page is strict (whether or not the expression is reached) and fails in
+    the non-strict page exactly when rendering reaches it - whatever other pages were created or rendered before."""
+    import os
+    import shutil
+    import tempfile
+    from chameleon import PageTemplateFile
+    from chameleon.exc import ExpressionError
+    rng = ctx.rng
+    tmp = tempfile.mkdtemp(prefix='c19l_')
+    try:
+        for case in range(n):
+            d = os.path.join(tmp, 'k%d' % case)
+            os.makedirs(d)
+            bad = rng.choice(BADS)
+            valid = rng.random() < .25
+            site = rng.choice(['<p tal:condition="reach">${%s}</p>', '<p tal:condition="reach" tal:content="%s">x</p>',
+                               '<tal:r repeat="r range(reach)"><i tal:attributes="a %s"/></tal:r>'])
+            with open(os.path.join(d, 'layout.pt'), 'w') as f:
+                f.write('<html>' + site % ('1 + 1' if valid else bad) + '<b metal:define-slot="s">d</b></html>')
+            how = rng.choice(['use-macro', 'define'])
+            pages = []
+            for k in range(rng.randint(2, 4)):
+                name = 'page%d.pt' % k
+                with open(os.path.join(d, name), 'w') as f:
+                    if how == 'use-macro':
+                        f.write('<x metal:use-macro="load: layout.pt"><i metal:fill-slot="s">F%d</i></x>' % k)
+                    else:
+                        f.write('<x tal:define="l load: layout.pt">F%d${structure: l(reach=reach)}</x>' % k)
+                pages.append((name, rng.random() < .5))
+            ts = [(name, strict, PageTemplateFile(os.path.join(d, name), strict=strict)) for name, strict in pages]
+            steps = [(rng.randrange(len(ts)), rng.choice([0, 1])) for _ in range(rng.randint(3, 7))]
+            hist = []
+            for k, reach in steps:
+                name, strict, t = ts[k]
+                try:
+                    t(reach=reach)
+                    got = 'rendered'
+                except ExpressionError:
+                    got = 'ExpressionError'
+                except Exception as e:
+                    got = 'RAISED %s' % type(e).__name__
+                want = 'rendered' if valid or (not strict and not reach) else 'ExpressionError'
+                hist.append('%s(strict=%s).render(reach=%d)' % (name, strict, reach))
+                ctx.mon('load-chain-steps')
+                if got != want:
+                    ctx.violation('strict-setting-not-handed-down-through-load',
+                                  'layout.pt with the %s expression %r, pages %r, history %r: last step %s, expected %s' % (
+                                      'valid' if valid else 'invalid', site % bad, pages, hist, got, want),
+                                  {'kind': 'loadchain'})
+                    break
+            ctx.case(key=('loadchain', tuple(st for _, st in pages), how, valid, tuple(steps)), nontrivial=len({st for _, st in pages}) > 1)
+    finally:
+        shutil.rmtree(tmp, ignore_errors=True)
 
 
 def layer_line_endings(ctx):
